@@ -1,18 +1,19 @@
 #!/bin/bash
 # Confirms a seeded change: demo passes on the unchanged tree; with the patch the tree builds, the
-# existing suite passes, and the demo fails. usage: confirm_seed.sh <seed-dir> (contains patch.diff + *_test.go)
-d=$(readlink -f "$1"); tag=$(echo "$d" | tr '/' '_')
+# existing suite passes, and the demo fails. usage: confirm_seed.sh <seed-dir> [pkg-dir-for-the-demo, default .]
+d=$(readlink -f "$1"); dest=${2:-.}
 wt=/tmp/cs-$$-$RANDOM
 export GOFLAGS=-mod=mod GOPROXY=off GOSUMDB=off GOTOOLCHAIN=local
 git -C /repo worktree add -q "$wt" HEAD || exit 2
 trap 'git -C /repo worktree remove --force "$wt" >/dev/null 2>&1' EXIT
 cd "$wt"
-cp "$d"/*_test.go . 2>/dev/null
-go test -vet=off -count=1 -timeout 200s -run 'Seed|Demo' . > /tmp/cs-out-$$ 2>&1; base=$?
+mkdir -p "$dest"
+for f in "$d"/*_test.go "$d"/*_test.go.txt; do [ -f "$f" ] && cp "$f" "$dest/zz_seed_$(basename "${f%.txt}")"; done
+go test -vet=off -count=1 -timeout 200s -run 'Seed|Demo|C[0-9][0-9]|c[0-9][0-9]' "./$dest/" > /tmp/cs-out-$$ 2>&1; base=$?
 git apply "$d/patch.diff" || { echo "$d: PATCH DOES NOT APPLY"; exit 1; }
 go build ./... || { echo "$d: DOES NOT BUILD"; exit 1; }
-go test -vet=off -count=1 -timeout 200s -run 'Seed|Demo' . > /tmp/cs-out2-$$ 2>&1; withp=$?
-rm -f ./*seed*_test.go ./*demo*_test.go ./demo_test.go
+go test -vet=off -count=1 -timeout 200s -run 'Seed|Demo|C[0-9][0-9]|c[0-9][0-9]' "./$dest/" > /tmp/cs-out2-$$ 2>&1; withp=$?
+rm -f "$dest"/zz_seed_*; rmdir "$dest" 2>/dev/null
 go test -vet=off -count=1 -timeout 600s ./... > /tmp/cs-suite-$$ 2>&1; suite=$?
 if [ $suite -ne 0 ]; then failed=$(grep -E "^(FAIL|---)" /tmp/cs-suite-$$ | head -5 | tr '\n' ' '); fi
 echo "$d: demo-unchanged=$base demo-with-patch=$withp suite-with-patch=$suite $failed"
